@@ -1,7 +1,7 @@
 """C01 Formatting preserves the meaning of the document (structural clauses)."""
 
 from ..report import Ctx
-from ..rules import hazard, render
+from ..rules import hazard, layout, render
 
 EXPLANATION = (
     "Structural necessary conditions of C01, decided over every element class the parser can instantiate (read from the "
@@ -40,6 +40,10 @@ def run(ctx: Ctx) -> None:
     ctx.rule("R-HAZARD", "first-word language of each paragraph-interrupting block start is covered by the line-start escaper")
     ctx.rule("R-ESCAPE-SITE", "the escaper is applied to the first word of every continuation line in Markdown mode")
     ctx.rule("R-ESCAPE-ACTION", "the escaper returns the word or the word with a single backslash inserted")
+    ctx.rule("R-HARDBREAK", "hard breaks are re-emitted as backslash + newline for every non-last segment")
+    ctx.rule("R-PREPARSE", "tag/block spacing is forced before parsing")
+    ctx.rule("R-LAYOUT-Y5", "the parser sees strip()+newline text on every path")
+    ctx.rule("R-FRONTMATTER", "frontmatter is split off before any text processing")
     ctx.run(render.check_dispatch)
     ctx.run(render.check_fields)
     ctx.run(render.check_decisions)
@@ -49,5 +53,7 @@ def run(ctx: Ctx) -> None:
     ctx.run(hazard.check_hazards)
     ctx.run(hazard.check_escape_site)
     ctx.run(hazard.check_escape_action)
+    ctx.run(layout.check_hard_break_decorator)
+    ctx.run(layout.check_parser_input)
     ctx.assume("marko 2.2.4 as installed: element classes, get_type dispatch, block start patterns are read from its source text")
     ctx.assume("regex approximations enlarge languages only (look-arounds dropped, ASCII model of \\d \\s \\w); hazards are reported per shape class")
